@@ -31,8 +31,11 @@ def fr(x):
     return Fraction(float(x))
 
 
+NONFINITE = Fraction(10 ** 30)          # stands for inf / nan in the data handed to Coq (never equal to a model value)
+
+
 def frl(a):
-    return [Fraction(float(v)) for v in a.reshape(-1)]
+    return [Fraction(float(v)) if math.isfinite(float(v)) else NONFINITE for v in a.reshape(-1)]
 
 
 def is_pow2(n):
@@ -487,6 +490,8 @@ def judge_do(case, res):
     out = res["raw"].reshape(-1)
     if res["dtype"] != case.dtype:
         return "output dtype %s for %s input" % (res["dtype"], case.dtype)
+    if not np.all(np.isfinite(out)):
+        return "non-finite output %s" % out.tolist()
     if not case.training:
         if not res["same_object"] and not np.array_equal(out, x):
             return "eval mode is not the identity"
